@@ -41,6 +41,8 @@ def matrices(seed):
         add("complex_generic", n, np.eye(n) + 0.45 * g)  # spectrum in the right half plane
     for n in (2, 3):
         q, _ = np.linalg.qr(rng.normal(size=(n, n)))
+        if np.linalg.det(q) < 0:
+            q[:, 0] = -q[:, 0]  # special orthogonal (real_logm needs a real logarithm to exist)
         ev = rng.uniform(0.5, 2.0, size=n)
         add("real_spd", n, (q * ev) @ q.T)
         add("real_orthogonal", n, q)
@@ -121,16 +123,17 @@ class Runner:
             return self.tf.convert_to_tensor(m)
         return np.array(m)
 
-    def call(self, fname, arrays, **static):
-        """f(*arrays, **static) with `arrays` as (traced, when compiled) array arguments."""
+    def call(self, fname, arrays, *pos, **static):
+        """f(*arrays, *pos, **static) with `arrays` as (traced, when compiled) array
+        arguments and `pos` / `static` as Python constants -- the way Piquasso calls it."""
         f = getattr(self.conn, fname)
         args = [self.arr(a) for a in arrays]
         if self.kind == "jaxjit":
-            res = self.jax.jit(lambda *xs: f(*xs, **static))(*args)
+            res = self.jax.jit(lambda *xs: f(*xs, *pos, **static))(*args)
         elif self.kind == "tffn":
-            res = self.tf.function(lambda *xs: f(*xs, **static))(*args)
+            res = self.tf.function(lambda *xs: f(*xs, *pos, **static))(*args)
         else:
-            res = f(*args, **static)
+            res = f(*args, *pos, **static)
         if isinstance(res, (tuple, list)):
             return tuple(_tn(r) for r in res)
         return _tn(res)
@@ -175,10 +178,10 @@ def run_part(ctx, pq, kind, seed, part, violate):
         w, v = np.linalg.eig(m)
         return np.linalg.cond(v) < 1e6
 
-    def attempt(fname, arrays, **static):
+    def attempt(fname, arrays, *pos, **static):
         """('ok', result) | ('unsupported', why) | ('crash', exc)"""
         try:
-            return "ok", R.call(fname, arrays, **static)
+            return "ok", R.call(fname, arrays, *pos, **static)
         except Exception as e:
             n = type(e).__name__
             if n in REFUSALS:
@@ -197,7 +200,7 @@ def run_part(ctx, pq, kind, seed, part, violate):
             ctx.count("unsupported:linalg:%s:%s:%s" % (R.connector_name, R.mode, fname))
             return False
         sig = {"sub": "connector_linalg_crash", "function": fname, "input_class": _icls(mname), "exc": type(res).__name__}
-        violate(sig, {"function": fname, "matrix": mname, "matrix_class": mcls, "kind": kind, "extra": extra or {}},
+        violate(sig, {"function": fname, "matrix": mname, "matrix_class": mcls, "connector_kind": kind, "extra": extra or {}},
                 "%s %s: %s(%s)%s raised %r" % (R.connector_name, R.mode, fname, mname, extra or "", res))
         return False
 
@@ -205,7 +208,7 @@ def run_part(ctx, pq, kind, seed, part, violate):
         sig = {"sub": "connector_linalg", "function": fname, "input_class": _icls(mname)}
         violate(
             sig,
-            {"function": fname, "matrix": mname, "matrix_class": mcls, "what": what, "kind": kind, "extra": extra or {}},
+            {"function": fname, "matrix": mname, "matrix_class": mcls, "what": what, "connector_kind": kind, "extra": extra or {}},
             "%s %s: %s(%s)%s: %s deviates by %.3e" % (R.connector_name, R.mode, fname, mname, extra or "", what, diff),
         )
 
@@ -283,19 +286,21 @@ def run_part(ctx, pq, kind, seed, part, violate):
                     ok, dd = _close(scipy.linalg.expm(arg), res)
                     if not ok:
                         report("expm", mname, mcls, "value", dd, {"argument": tag})
-            st, res = attempt("powm", [m.astype(complex)], power=3)
+            st, res = attempt("powm", [m.astype(complex)], 3)
             if handle("powm", mname, mcls, st, res):
                 ok, dd = _close(np.linalg.matrix_power(m, 3), res)
                 if not ok:
                     report("powm", mname, mcls, "value", dd)
-            if not np.iscomplexobj(m) and mcls in ("real_orthogonal", "real_spd"):
-                # real_logm (fermionic Gaussian density matrix): exp(result) must give back M
+            fermionic = kind in ("jax", "jaxjit", "numpy")  # the fermionic simulators accept NumPy and JAX only
+            if fermionic and not np.iscomplexobj(m) and mcls in ("real_orthogonal", "real_spd") and np.linalg.det(m) > 0 and kind != "jaxjit":
+                # real_logm (fermionic Gaussian density matrix; documented: the caller must
+                # guarantee that a real logarithm exists, eager only): exp(result) gives back M
                 st, res = attempt("real_logm", [m])
                 if handle("real_logm", mname, mcls, st, res):
                     ok, dd = _close(m, scipy.linalg.expm(res))
                     if not ok:
                         report("real_logm", mname, mcls, "exp(result)", dd)
-            if mcls == "real_antisymmetric":
+            if fermionic and mcls == "real_antisymmetric" and kind != "jaxjit":
                 st, res = attempt("pfaffian", [m])
                 if handle("pfaffian", mname, mcls, st, res):
                     n = len(m)
@@ -418,7 +423,7 @@ def run_part(ctx, pq, kind, seed, part, violate):
                     ctx.count("unsupported_cells")
                     continue
                 try:
-                    res = R.conn.calculate_interferometer_on_fock_space(R.arr(U), helper)
+                    res = R.conn.calculate_interferometer_on_fock_space(R.conn.preprocess_input_for_custom_gradient(R.arr(U)), helper)
                     st = "ok"
                 except Exception as e:
                     nme = type(e).__name__
